@@ -659,3 +659,117 @@ pub fn replay(checks: &[Box<dyn DynCheck>], path: &str, quiet: bool) -> i32 {
         },
     }
 }
+
+
+// ------------------------------------------------------------------------------------
+// determinism self-test
+// ------------------------------------------------------------------------------------
+
+fn report_fp(rep: &RunReport) -> u64 {
+    let mut h = 0xcbf2_9ce4_8422_2325u64;
+    let mut mix = |v: u64| h = (h ^ v).wrapping_mul(0x100_0000_01B3).rotate_left(13);
+    mix(rep.shape);
+    mix(rep.steps);
+    mix(rep.execs);
+    mix(rep.end_state);
+    mix(u64::from(rep.nontrivial));
+    for (k, v) in &rep.probes {
+        for b in k.bytes() {
+            mix(u64::from(b));
+        }
+        mix(*v);
+    }
+    for (k, v) in &rep.faults {
+        for b in k.bytes() {
+            mix(u64::from(b));
+        }
+        mix(*v);
+    }
+    if let Some(v) = &rep.violation {
+        for b in v.oracle.bytes().chain(v.class.bytes()).chain(v.detail.bytes()) {
+            mix(u64::from(b));
+        }
+    }
+    if let Some(e) = &rep.harness_error {
+        for b in e.bytes() {
+            mix(u64::from(b));
+        }
+    }
+    h
+}
+
+/// `simcheck selftest-worker <ID> <seed> <shard> <nshards> <count>`: prints "FP <i> <fp>".
+pub fn selftest_worker(check: &dyn DynCheck, seed: u64, shard: u64, n: u64, count: u64) {
+    let mut i = shard;
+    while i < count {
+        let rs = derive(seed, check.id(), i);
+        copia_simworld::kernel::reset_run_fp(true);
+        let (rep, _) = check.run_seed(rs, Tier::Quick);
+        let fp = report_fp(&rep) ^ copia_simworld::kernel::take_run_fp();
+        println!("FP {i} {fp}");
+        i += n;
+    }
+}
+
+/// Every run index is executed twice, in different worker processes, at worker counts 1
+/// and 16; the fingerprints (complete op traces incl. paths, sizes, results and simulated
+/// times; captured output; exit kinds; the final world of every host; the run report)
+/// must be identical. Exit 0 = deterministic, 2 = divergence.
+pub fn selftest(checks: &[Box<dyn DynCheck>], count: u64, seed: u64, only: Option<&str>) -> i32 {
+    let exe = std::env::current_exe().expect("current_exe");
+    let mut bad = 0u64;
+    let mut total = 0u64;
+    for c in checks {
+        if let Some(o) = only {
+            if o != c.id() {
+                continue;
+            }
+        }
+        let run = |nshards: u64| -> BTreeMap<u64, u64> {
+            let mut kids = Vec::new();
+            for sh in 0..nshards {
+                kids.push(
+                    std::process::Command::new(&exe)
+                        .args(["selftest-worker", c.id(), &seed.to_string(), &sh.to_string(), &nshards.to_string(), &count.to_string()])
+                        .stdout(std::process::Stdio::piped())
+                        .stderr(std::process::Stdio::null())
+                        .spawn()
+                        .expect("spawn"),
+                );
+            }
+            let mut m = BTreeMap::new();
+            for k in kids {
+                let o = k.wait_with_output().expect("wait");
+                for l in String::from_utf8_lossy(&o.stdout).lines() {
+                    let p: Vec<&str> = l.split(' ').collect();
+                    if p.len() == 3 && p[0] == "FP" {
+                        if let (Ok(i), Ok(f)) = (p[1].parse::<u64>(), p[2].parse::<u64>()) {
+                            m.insert(i, f);
+                        }
+                    }
+                }
+            }
+            m
+        };
+        let a = run(1);
+        let b = run(16);
+        let mut diverged = Vec::new();
+        for i in 0..count {
+            total += 1;
+            if a.get(&i).is_none() || a.get(&i) != b.get(&i) {
+                diverged.push(i);
+            }
+        }
+        println!("selftest {}: {} run indices x 2 executions (1 worker vs 16 workers): {} divergent", c.id(), count, diverged.len());
+        if !diverged.is_empty() {
+            println!("  divergent run indices: {:?}", &diverged[..diverged.len().min(10)]);
+            bad += diverged.len() as u64;
+        }
+    }
+    println!("selftest: {total} run indices compared, {bad} divergent");
+    if bad == 0 {
+        0
+    } else {
+        2
+    }
+}
